@@ -16,4 +16,12 @@ CHECKS = {
                 "with pairwise disjoint members (guard evaluated by the specification).",
         "technique": "TLA+ definitional DE-9IM oracle; TLC exhaustive check of predicate table + TLC trace validation of recorded calls",
     },
+    "C03": {
+        "text": "OGC validity is defined in TLA+ (Validity.tla: exact ring interaction, Euler-formula connectedness, DE-9IM for "
+                "multipolygon members); TLC enumerates a complete family of two-hole polygons (every lattice triangle x outer-hole shape x "
+                "ring rotation/direction/order) and validates every recorded Validate()/decoder/IsSimple call of the real library on those "
+                "and on tens of thousands of random unvalidated dense-lattice geometries against the definition.",
+        "note": TLCNOTE + "Exact decision on lattices N<=16 and exact-similarity images; NaN/Inf handled as ordinate classes.",
+        "technique": "TLA+ definitional validity oracle; TLC-enumerated polygon family replayed into Validate + TLC trace validation",
+    },
 }
